@@ -143,4 +143,9 @@ theorem Ac_flags : (CPR.initScalar Ac 2 0).uninit = false ∧ (CPR.initScalar Ac
   decide +kernel
 theorem Ac_ok : Ac.sortedb = true ∧ (if (0 : Nat) = 0 then Ac.nrows else 0) = 2 * 2 := by decide
 
+/-- a 3×3 block matrix of 2×2 blocks; block row 0 couples to the (inactive) block column 2 -/
+def Abk : CRS (CPR.Blk ℚ) := ⟨3, #[[(0, #[4, 1, 1, 3]), (2, #[1, 0, 0, 1])], [(1, #[5, 2, 1, 4])],
+  [(0, #[1, 0, 0, 1]), (2, #[3, 0, 0, 3])]]⟩
+theorem Abk_ok : Abk.sortedb = true ∧ 2 ≤ Abk.nrows := by decide
+
 end Amgcl.C18Ex
